@@ -1,5 +1,6 @@
 -- root of the proof library: one module per property (theorems only) + helper lemmas
 import Proofs.C05
+import Proofs.C06
 import Proofs.C10
 import Proofs.C11
 import Proofs.C12
@@ -7,5 +8,6 @@ import Proofs.C13
 import Proofs.C14
 import Proofs.C16
 import Proofs.C17
+import Proofs.C18
 import Proofs.C19
 import Proofs.C20
